@@ -89,9 +89,9 @@ Section Membership.
     { unfold sl. destruct (init s && negb (is_late ts w') && (ts <? sl0)); [apply align_aligned|].
       unfold sl0. destruct (init s) eqn:E; [auto|apply align_aligned]. }
     assert (Hd': Forall P (data s ++ [(id, ts)])) by (apply Forall_app; split; [exact Hd|constructor; [exact Hp|constructor]]).
-    assert (Hkeep: InvM {| init := true; slot := sl; data := data s ++ [(id, ts)]; trig := trig s; w := w'; pend := pend s |}).
+    assert (Hkeep: InvM {| init := true; slot := sl; data := data s ++ [(id, ts)]; trig := trig s; w := w'; pend := pend s; adv := adv s |}).
     { split; [exact Hd'|]. split; [exact Ht|]. intros _; exact Hsl. }
-    assert (Hdrop: InvM {| init := true; slot := sl; data := data s; trig := trig s; w := w'; pend := pend s |}).
+    assert (Hdrop: InvM {| init := true; slot := sl; data := data s; trig := trig s; w := w'; pend := pend s; adv := adv s |}).
     { split; [exact Hd|]. split; [exact Ht|]. intros _; exact Hsl. }
     destruct (is_late ts w'); [|intros [= <- <-]; split; [exact Hkeep|constructor]].
     destruct (inwin c sl ts); [intros [= <- <-]; split; [exact Hkeep|constructor]|].
